@@ -47,3 +47,8 @@ unsafe impl CoreImpl<FFT64Ref> for FFT64Ref {
 unsafe impl CoreImpl<NTT120Ref> for NTT120Ref {
     poulpy_core::impl_core_default_methods!(NTT120Ref);
 }
+
+#[cfg(kani)]
+mod verif_kani {
+    include!(concat!(env!("POULPY_VERIF_KX"), "/cpu_ref/lib.rs"));
+}
